@@ -122,8 +122,27 @@ def _times(case):
     return np.array([s * NS for s in case["time"]], dtype="int64").astype("datetime64[ns]")
 
 
-def _bound(s):
-    return None if s is None else dt.datetime(1970, 1, 1) + dt.timedelta(seconds=s)
+WINDOW_FORMS = ("datetime", "iso", "utc", "timestamp", "dt64")
+
+
+def _bound(s, form="datetime"):
+    """a window bound, s seconds after the epoch, in one of the forms a configuration can carry it:
+    naive datetime (YAML timestamp without offset), ISO string (JSON / quoted YAML), UTC-aware datetime
+    (YAML timestamp written with Z), pandas Timestamp, numpy datetime64"""
+    if s is None:
+        return None
+    d = dt.datetime(1970, 1, 1) + dt.timedelta(seconds=s)
+    if form == "iso":
+        return d.isoformat()
+    if form == "utc":
+        return d.replace(tzinfo=dt.timezone.utc)
+    if form == "timestamp":
+        import pandas as pd
+        return pd.Timestamp(d)
+    if form == "dt64":
+        import numpy as np
+        return np.datetime64(d, "s")
+    return d
 
 
 def build_config(case):
@@ -142,7 +161,8 @@ def build_config(case):
                 streams.setdefault(cl["stream"], {}).setdefault("qartod", {})[cl["test"]] = kw
         ctx = {"streams": streams}
         if c["start"] is not None or c["end"] is not None:
-            ctx["window"] = {"starting": _bound(c["start"]), "ending": _bound(c["end"])}
+            wf = case.get("wform", "datetime")
+            ctx["window"] = {"starting": _bound(c["start"], wf), "ending": _bound(c["end"], wf)}
         ctxs.append(ctx)
     return {"contexts": ctxs}
 
@@ -328,7 +348,7 @@ def gen_table(rng, n):
     return time, col
 
 
-def gen_stream(tier, rng, frontends=("pandas", "numpy", "netcdf", "xarray"), faults=False):
+def gen_stream(tier, rng, frontends=("pandas", "numpy", "netcdf", "xarray"), faults=False, wforms=True):
     cases = []
     count = 140 if tier == "quick" else 1200
     for _ in range(count):
@@ -408,6 +428,9 @@ def gen_stream(tier, rng, frontends=("pandas", "numpy", "netcdf", "xarray"), fau
             cases.append({"frontend": fe, "n": n, "time": time if has_time else None, "z": axes["z"], "lat": axes["lat"],
                           "lon": axes["lon"], "cols": cols, "index": index if fe == "pandas" else list(range(n)),
                           "cfg": cfg})
+            if wforms and not faults and has_time and rng.random() < 0.35 \
+                    and any(c["start"] is not None or c["end"] is not None for c in cfg):
+                cases[-1]["wform"] = rng.choice(WINDOW_FORMS[1:])       # the same instants, spelled differently
     return cases
 
 
@@ -438,7 +461,7 @@ class StreamSpec(StreamRun):
 
 def xarray_deviates(case):
     """F9: the window forms XarrayStream does not honour"""
-    if case["frontend"] != "xarray" or case["time"] is None:
+    if not isinstance(case, dict) or case.get("frontend") != "xarray" or case.get("time") is None:
         return False
     for c in case["cfg"]:
         if (c["start"] is None) != (c["end"] is None):
@@ -586,7 +609,8 @@ def object_reuse_failures(rng, count):
 
     for _ in range(count):
         a, b = gen_stream("quick", rng, frontends=(rng.choice(["pandas", "numpy"]),))[:2] if False else (None, None)
-        cs = gen_stream("quick", core.Rng(rng.randint(0, 10 ** 9)), frontends=(rng.choice(["pandas", "numpy"]),))
+        cs = gen_stream("quick", core.Rng(rng.randint(0, 10 ** 9)), frontends=(rng.choice(["pandas", "numpy"]),),
+                        wforms=False)
         if len(cs) < 2:
             continue
         a, b = cs[0], cs[1]
